@@ -182,8 +182,8 @@ pub fn run(cfg: &Config) -> i32 {
     require_binaries(cfg);
     let tmp = scratch_dir(cfg, "c18");
     let budget = Duration::from_secs_f64(cfg.pick(30.0, 300.0) * cfg.scale);
-    let mut stats = parallel(cfg, "termination", cfg.scaled(cfg.pick(8_000, 3_000_000)), budget, |idx, r, st| termination_case(cfg, idx, r, st));
-    let s2 = parallel(cfg, "determinism", cfg.scaled(cfg.pick(600, 300_000)), budget, |idx, r, st| determinism_case(cfg, &tmp, idx, r, st));
+    let mut stats = parallel(cfg, "termination", cfg.scaled(cfg.pick(20_000, 3_000_000)), budget, |idx, r, st| termination_case(cfg, idx, r, st));
+    let s2 = parallel(cfg, "determinism", cfg.scaled(cfg.pick(1200, 300_000)), budget, |idx, r, st| determinism_case(cfg, &tmp, idx, r, st));
     stats.merge(s2);
     let _ = std::fs::remove_dir_all(&tmp);
     finish(
